@@ -101,7 +101,7 @@ func (e *Engine) EnableStub(name, kind string) {
 			dagT := c.E.Prog.ImportedPackage(repoMod + "/internal/dag").Type("DAG").Type()
 			valid := func(text *Term) *Term {
 				if text.Const {
-					return BoolC(strings.Contains(text.S, "command:"))
+					return BoolC(text.S == "" || strings.Contains(text.S, "command:")) // the empty document is a valid (empty) definition
 				}
 				DeclareFun("yaml_valid", "(declare-fun |yaml_valid| (String) Bool)")
 				return App("yaml_valid", SBool, 0, text)
